@@ -5,6 +5,7 @@ from harness import core, pipe, pipecheck, pipeprops
 from harness.core import Failure, Result
 
 MANIFEST = dict(
+    pending="check runs (model lock-step + oracle) but its Coq theorems are still being proved; not claimed until coq/Props holds them",
     design_ref="DESIGN.md §6 C02",
     text="Pipeline model in lock-step against the real observer on the real kernel (see C01); after every history a probe "
          "file is created in EVERY directory of the final tree and must be reported under its real path (recursive) / only "
